@@ -113,7 +113,14 @@ pub fn scenario(seed: u64, k: u64, out: &Out) {
         if w.bans.len() > bans0 {
             let (_, reason) = w.bans[bans0].clone();
             let code = reason.split(':').next().unwrap_or("").to_string();
-            let forked = if phases.iter().any(|p| p == "fork") { "after-fork" } else { "no-fork" };
+            let mut forked = if phases.iter().any(|p| p == "fork") { "after-fork".to_string() } else { "no-fork".to_string() };
+            if code.starts_with("InvalidTotalDifficulty") {
+                // which header the client used as the start of the total-difficulty envelope
+                let tip = w.c().storage.get_tip_header().into_view();
+                let m = &w.chains[net.main];
+                let on_main = tip.number() <= m.tip() && m.blocks[tip.number() as usize].hash() == tip.hash();
+                forked = format!("{}|{}", forked, if on_main { "start-on-peer-chain" } else { "start-on-abandoned-branch" });
+            }
             out.violation("C05.R1", &format!("C05|ban|{}|{}", code, forked), json!({"scenario": desc, "phases": phases, "reason": reason, "trace": w.trace_vec()}), k);
             break;
         }
@@ -179,7 +186,13 @@ pub fn scenario(seed: u64, k: u64, out: &Out) {
                     phases.push("fork".into());
                     let at = *rng.pick(&cands);
                     let d = tipn - at;
-                    net.fork(&mut w, at, d + rng.range(1, 4), rng.next_u64() | 1);
+                    // short (no samples needed) or long (reorg section + samples + last-N in one answer)
+                    let long = rng.chance(1, 2);
+                    let extra = if long { rng.range(ccfg.last_n as u64 + 2, 4 * ccfg.last_n as u64 + 25) } else { rng.range(1, 4) };
+                    if long {
+                        phases.push("long-branch".into());
+                    }
+                    net.fork(&mut w, at, d + extra, rng.next_u64() | 1);
                     net.grow(&mut w, 1);
                 } else {
                     phases.push("grow".into());
